@@ -146,6 +146,7 @@ PROPS["C02"] = dict(
     assumptions=["the adversary cannot forge AEAD tags", "channel-level checks use real timers with rekey interval ~150 ms"],
     subs=[
         R("C02.session_dolev_yao", "ke", "TestC02Session", 5000, 320000, steps=40),
+        R("C02.replay_window_edges", "ke", "TestC02ReplayWindow", 160, 8000, shrink=10, quick=dict(shards=4, timeout=600)),
         R("C02.session_concurrent_send", "ke", "TestC02SessionConcurrentSend", 400, 20000, race=True),
         R("C02.channel_rotation", "kechan", "TestC02ChannelRotation", 16, 1200, shrink=5, quick=dict(checks=16, shards=4, timeout=600)),
         R("C02.concurrent_send", "kechan", "TestC02ConcurrentSend", 40, 3000, shrink=5, quick=dict(checks=40, shards=2, timeout=600)),
